@@ -37,3 +37,14 @@ Example C02_example :
   safesb (mkCfg true 0 32) init (number_from 0 lines) = true /\
   length (run (mkCfg true 0 32) lines) = length lines.
 Proof. vm_compute. split; reflexivity. Qed.
+
+(* Submodule pointer lines: with --color-only the short-form handler (shape pinned by
+   GenSubmodule.v, see C01_submodule_handler_is_modelled) claims no line in any state, so these lines
+   stay on the one-row-per-line path like every other hunk line. *)
+From DV Require Import Submodule SubmoduleFacts GenSubmodule.
+
+Theorem C02_submodule_handler_is_modelled : submodule_handler_is_modelled = true.
+Proof. reflexivity. Qed.
+
+Theorem C02_submodule_lines_not_claimed : forall st l, sub_handle true st l = None.
+Proof. exact color_only_claims_nothing. Qed.
